@@ -159,6 +159,77 @@ def d2_extent(ctx, mod):
 
 # ------------------------------------------------------------------ D3
 
+def _zero_division_by_evaluation(ctx, mod, f):
+    """True / False / None(unknown).  Evaluates the extracted __truediv__ (plus module-level one-argument helpers it calls) with stubs:
+    self = a one-timeslice correlator stub, y = Obs / CObs / int / float stand-ins; a zero divisor must raise ValueError, a non-zero
+    one must not raise it."""
+    import copy as _copy
+
+    class Obs:
+        def __init__(self, v):
+            self.value = v
+
+        def __rtruediv__(self, o):
+            return 'q'
+
+    class CObs:
+        def __init__(self, z):
+            self._z = z
+
+        def is_zero(self):
+            return self._z
+
+        def __rtruediv__(self, o):
+            return 'q'
+
+    class _Item:
+        def __truediv__(self, o):
+            return 'q'
+
+    class _Self:
+        T, N, prange = 1, 1, None
+        content = [_Item()]
+
+    class Corr:
+        def __init__(self, *a, **k):
+            pass
+    called = {call_name(c) for c in walk(f) if isinstance(c, ast.Call)}
+    helpers = [h for h in mod.tree.body if isinstance(h, ast.FunctionDef) and h.name in called and h.name != '_check_for_none' and len(h.args.args) == 1
+               and not any(isinstance(x, (ast.Import, ast.ImportFrom, ast.Global, ast.While, ast.With, ast.Try)) for x in ast.walk(h))]
+    if any(isinstance(x, (ast.Import, ast.ImportFrom, ast.Global, ast.While, ast.With)) for x in walk(f)):
+        return None
+    safe = {'isinstance': isinstance, 'range': range, 'len': len, 'int': int, 'float': float, 'all': all, 'any': any, 'ValueError': ValueError, 'TypeError': TypeError, 'Exception': Exception,
+            'bool': bool, 'list': list, 'tuple': tuple, 'NotImplemented': NotImplemented, 'str': str, 'hasattr': hasattr, 'complex': complex}
+
+    class _NP:
+        ndarray = type('ndarray', (), {})
+
+        @staticmethod
+        def isnan(x):
+            return False
+
+        @staticmethod
+        def sum(x):
+            return Obs(1.0)
+    try:
+        g = _copy.deepcopy(f)
+        g.decorator_list = []
+        ns = {'__builtins__': safe, 'Obs': Obs, 'CObs': CObs, 'Corr': Corr, 'np': _NP, '_check_for_none': lambda c, e: False}
+        exec(compile(ast.fix_missing_locations(ast.Module(body=[_copy.deepcopy(h) for h in helpers] + [g], type_ignores=[])), '<truediv>', 'exec'), ns)
+        fn = ns[f.name]
+        for y, zero in ((Obs(0), True), (Obs(0.5), False), (CObs(True), True), (CObs(False), False), (0, True), (3, False), (0.0, True), (0.25, False)):
+            try:
+                fn(_Self(), y)
+                raised = False
+            except ValueError:
+                raised = True
+            if raised != zero:
+                return False
+        return True
+    except Exception:
+        return None
+
+
 def d3_nan(ctx, mod):
     rule = 'C14-D3'
     for q in ('Corr._apply_func_to_corr', 'Corr.__truediv__'):
@@ -177,7 +248,12 @@ def d3_nan(ctx, mod):
     # division by a zero scalar / Obs raises
     f = mod.func('Corr.__truediv__')
     z = [unparse(guards_of(mod, s, stop=f)[-1][0]) for s in statements(f) if isinstance(s, ast.Raise) and guards_of(mod, s, stop=f)]
-    ctx.check(rule, 'correlators.py:Corr.__truediv__#zero-division', 'y.value == 0' in z and 'y == 0' in z and 'y.is_zero()' in z, 'division by zero (number, Obs, CObs) raises', 'raise guards: %s' % z)
+    textual = 'y.value == 0' in z and 'y == 0' in z and 'y.is_zero()' in z
+    if not textual:
+        # the zero tests may live in one predicate (a helper, or a flag computed per type): the part of __truediv__ that handles a scalar
+        # divisor is evaluated with stand-in divisors of every type, zero and non-zero; it has to raise exactly for the zero ones
+        textual = _zero_division_by_evaluation(ctx, mod, f)
+    ctx.check(rule, 'correlators.py:Corr.__truediv__#zero-division', bool(textual), 'division by zero (number, Obs, CObs) raises', 'raise guards: %s' % z)
 
 
 # ------------------------------------------------------------------ D4
@@ -348,7 +424,7 @@ def d7_operators(ctx, mod):
             ok = type(e.op) is op and (l, r) == want and it_ok
             ctx.check(rule, key, ok, 'entry t = %s %s %s' % (want[0], op.__name__, want[1]),
                       'entry t of the result is %s; the operation %s requires %s %s %s at the same timeslice' % (unparse(e), name, want[0], op.__name__, want[1]), mod.loc(c))
-    ctx.floor('operator element expressions', n, 10)
+    ctx.floor('operator element expressions', n, 8)      # 10 on the reference tree; branches of equal treatment may be merged
     simple = {
         '__radd__': 'self + y', '__rmul__': 'self * y', '__sub__': 'self + -y', '__rsub__': '-self + y', '__rtruediv__': '(self / y) ** (-1)',
     }
